@@ -1,23 +1,28 @@
 /-
   xotmodel — the model behind a one-request-per-line protocol.
   A malformed or unknown request is answered `bad-request`, never defaulted.
+  State carried between lines: the vocabulary (`vocab …`).
 -/
 import XotModel.Driver.Entity
+import XotModel.Driver.Tree
 
 open XotModel.Driver
 
-def dispatch (line : String) : String :=
+def dispatch (st : DState) (line : String) : DState × String :=
   match words line with
-  | "entity" :: rest => (handleEntity rest).getD "bad-request"
-  | _ => "bad-request"
+  | "vocab" :: rest => (handleVocab st rest).getD (st, "bad-request")
+  | "entity" :: rest => (st, (handleEntity rest).getD "bad-request")
+  | "tree" :: rest => (st, (handleTree rest).getD "bad-request")
+  | _ => (st, "bad-request")
 
-partial def loop (h : IO.FS.Stream) (out : IO.FS.Stream) : IO Unit := do
+partial def loop (h : IO.FS.Stream) (out : IO.FS.Stream) (st : DState) : IO Unit := do
   let line ← h.getLine
   if line.isEmpty then return ()
-  out.putStrLn (dispatch (line.trimAscii.toString))
-  loop h out
+  let (st', resp) := dispatch st (line.trimAscii.toString)
+  out.putStrLn resp
+  loop h out st'
 
 def main : IO Unit := do
   let out ← IO.getStdout
-  loop (← IO.getStdin) out
+  loop (← IO.getStdin) out {}
   out.flush
